@@ -335,9 +335,21 @@ Definition load_log : bytes -> load_res := load_log_buf load_buf_size.
 (* ------------------------------------------------------------------------------------------ *)
 (** * Writers: a recording session, Recompact, Restat *)
 
-(* OpenForWriteIfNeeded: fopen "ab"; the signature is written iff ftell == 0, i.e. the file is
-   empty or new; then one WriteEntry (+fflush) per recorded output. *)
+(* OpenForWriteIfNeeded (after the fix of the merged-line defect, commit 6375e7b): fopen "a+b";
+   the signature is written iff ftell == 0 after seeking to the end, i.e. the file is empty or new;
+   otherwise the last byte is read back and, when it is not '\n' (a previous run died in the middle
+   of a write), ONE '\n' is written first so that the torn tail becomes a line of its own.  Then one
+   WriteEntry (+fflush) per recorded output.  The newline is written even when nothing is recorded
+   (Close() opens the file). *)
 Definition record_append (file : bytes) (es : list entry) : bytes :=
+  file ++ (match file with
+           | [] => log_header
+           | _ :: _ => if last file 0 =? 10 then [] else [10]
+           end) ++ concat (map render_entry es).
+
+(* The behaviour BEFORE the fix (fopen "ab", no look at the last byte): kept to document the
+   defect; the torn tail and the first appended record merged into one line. *)
+Definition record_append_old (file : bytes) (es : list entry) : bytes :=
   file ++ (match file with [] => log_header | _ :: _ => [] end) ++ concat (map render_entry es).
 
 (* Recompact: signature + every entry whose output is not dead.  The C++ iterates a hash map, so
@@ -423,6 +435,34 @@ Definition complete_prefix (k : nat) (es : list entry) : list entry :=
 Definition torn_fragment (k : nat) (es : list entry) : bytes :=
   torn_fragment_from (k - length log_header) es.
 
+(* the record that was being written when the file was cut (None at a record boundary / past the end) *)
+Fixpoint torn_record_from (avail : nat) (es : list entry) : option entry :=
+  match es with
+  | [] => None
+  | e :: r => let n := length (render_entry e) in
+              if (n <=? avail)%nat then torn_record_from (avail - n) r
+              else match avail with O => None | S _ => Some e end
+  end.
+Definition torn_record (k : nat) (es : list entry) : option entry :=
+  torn_record_from (k - length log_header) es.
+
+Fixpoint count_tabs (s : bytes) : nat :=
+  match s with
+  | [] => O
+  | c :: s' => if c =? 9 then S (count_tabs s') else count_tabs s'
+  end.
+
+(* With the fixed record_append the torn fragment is terminated and read as a line of its own:
+   skipped when it has fewer than four tabs, otherwise one entry (BuildLogProofs:
+   fragment_entry_few_tabs, fragment_entry_of_record). *)
+Definition fragment_entry (frag : bytes) : list entry :=
+  match parse_line frag with Some x => [x] | None => [] end.
+
+(* the interrupted record with only the first [j] hex digits of its hash *)
+Definition truncated_hash (et : entry) (j : nat) : entry :=
+  {| e_out := e_out et; e_start := e_start et; e_end := e_end et; e_mtime := e_mtime et;
+     e_hash := c_strtoull16 (firstn j (print_hex_N (e_hash et))) |}.
+
 (* split at every tab *)
 Fixpoint split_tabs (s : bytes) : list bytes :=
   match s with
@@ -434,8 +474,8 @@ Fixpoint split_tabs (s : bytes) : list bytes :=
                     end
   end.
 
-(* The entry produced by the line "frag ++ render_body e'" (a torn fragment without newline glued to
-   the next record), by the number of tabs in the fragment. *)
+(* OLD behaviour (record_append_old): the entry produced by the line "frag ++ render_body e'" (a torn
+   fragment without newline glued to the next record), by the number of tabs in the fragment. *)
 Definition merged_line_entry (frag : bytes) (e' : entry) : list entry :=
   let s' := print_dec_Z (e_start e') in
   let n' := print_dec_Z (e_end e') in
